@@ -230,3 +230,10 @@ p["streams"] += [S("sysu", 3000, 40000)]
 p["trivial_labels"] = list(p.get("trivial_labels", [])) + ["outside-S1:flag", "rules-rejected"]
 p["rule"] += _SYS_RULE + "; oracle C02 on the request-target the selected destination received (raw client -> net/http -> completeURL -> Rules.Match -> createOutgoingURLs -> NewRequest): it is UrlEsc.requestURI of the rule's destination with the capture taken from the request-target AS SENT (escaped spellings that decode to clean paths: %2F, %41, %3A, %40, sub-delims, bare '?'), query verbatim (class C02-a excluded); requests with and without any Connection header"
 p["trusted_base"] += _SYS_TB
+
+# C19 at system level (stream sysu): reloads around and DURING a request
+p = _ensure("C19", "Configurations are accepted or rejected whole; a reload keeps the last good one")
+p["streams"] += [S("sysu", 3000, 40000)]
+p["trivial_labels"] = list(p.get("trivial_labels", [])) + ["outside-S1:flag", "rules-rejected"]
+p["rule"] += _SYS_RULE + "; 30 % of the cases carry a reload (Router.SetRules) between a sibling rule set (one rule's enabled flag, host or scheme constraint changed) and the case's rules: before the request (handled under the rules loaded last) or from inside the performer's first Do (in flight: the request is finished under the rules it started with); oracle C19: with a reload in the case the implementation behaves exactly like the model under the case's rules alone"
+p["trusted_base"] += _SYS_TB
